@@ -74,7 +74,7 @@ def lake_build(targets, timeout=1800):
 
 
 def ensure_driver():
-    ok, out = lake_build(["xdriver"])
+    ok, out = lake_build(["xdriver", "xjdriver"])
     if not ok or not os.path.exists(DRIVER):
         raise Infra("cannot build the model driver:\n" + out[-3000:])
 
@@ -291,6 +291,10 @@ class Check:
         for fid, (f, v) in sorted(known_hit.items()):
             lines.append(f"KNOWN-FINDING: property={self.pid} {f['id']} {f['what']}")
         exit_code = 0
+        if self.broken:
+            json.dump({"property": self.pid, "seed": self.seed, "tier": self.tier, "broken": self.broken},
+                      open(os.path.join(VERIF, "replays", f"{self.pid}-{self.seed}-obligations.json"), "w"),
+                      indent=1, default=str)
         if new_viol:
             # report the first few distinct signatures
             seen = set()
